@@ -3,6 +3,7 @@
 package jobs
 
 import (
+	"strconv"
 	"time"
 
 	"github.com/mimiro-io/datahub/internal/server"
@@ -259,4 +260,65 @@ func VerifC11Definition(h *verifh.H) {
 		h.Assert(vJoinS(vListing(hub, "dst")) == vJoinS(vListing(hub, "src")), "a successful run delivered the source's entities")
 	}
 	h.Observe("lastError", res.LastError)
+}
+
+// VerifC11RaffleRace: two triggers of the SAME job id (or of two different
+// ids) reach the raffle at the same moment — a cron tick coinciding with an
+// on-change event or a manual run — and a third party returns a ticket, under
+// a symbolic schedule that may preempt before every lock acquisition of the
+// raffle. At most one of two triggers of one job id gets a ticket, a job id
+// never holds two tickets, the pool accounting stays exact, and after all
+// tickets are returned the raffle is as it started.
+func VerifC11RaffleRace(h *verifh.H) {
+	hub := server.VerifNewHub(h)
+	pool := 2
+	runner := vRunner(hub, pool, pool)
+	r := runner.raffle
+	full := h.Choice("full", 2) == 1
+	mkJob := func(id string) *job {
+		var pl Pipeline
+		if full {
+			pl = &FullSyncPipeline{}
+		} else {
+			pl = &IncrementalPipeline{}
+		}
+		return &job{id: id, title: id, pipeline: pl, runner: runner}
+	}
+	sameID := h.Choice("sameID", 2) == 1
+	j1 := mkJob("job-a")
+	j2 := mkJob("job-b")
+	if sameID {
+		j2 = mkJob("job-a")
+	}
+	var t1, t2 *ticket
+	h.SymbolicLocks()
+	h.SymbolicSched(h.Param("preemptions", 2))
+	h.Go(func() { t1 = r.borrowTicket(j1) })
+	h.Go(func() { t2 = r.borrowTicket(j2) })
+	h.Assert(h.Wait(), "both triggers are answered")
+	got := 0
+	if t1 != nil {
+		got++
+	}
+	if t2 != nil {
+		got++
+	}
+	if sameID {
+		h.Assert(got == 1, "of two simultaneous triggers of one job id exactly one gets a ticket :: got="+strconv.Itoa(got))
+	} else {
+		h.Assert(got == 2, "triggers of different job ids both get a ticket while the pool has room :: got="+strconv.Itoa(got))
+	}
+	left := r.ticketsIncr
+	if full {
+		left = r.ticketsFull
+	}
+	h.Assert(left == pool-got, "tickets handed out + tickets left = pool :: left="+strconv.Itoa(left)+" handed="+strconv.Itoa(got))
+	h.Assert(len(r.runningJobs) == got || (sameID && len(r.runningJobs) == 1), "every ticket holder is registered as running")
+	for _, t := range []*ticket{t1, t2} {
+		if t != nil {
+			r.returnTicket(t)
+		}
+	}
+	h.Assert(len(r.runningJobs) == 0 && r.ticketsIncr == pool && r.ticketsFull == pool, "after all tickets are returned the raffle is as it started :: running="+strconv.Itoa(len(r.runningJobs))+" incr="+strconv.Itoa(r.ticketsIncr)+" full="+strconv.Itoa(r.ticketsFull))
+	h.Observe("got", got)
 }
